@@ -7,10 +7,10 @@ CONSTANTS
   Ring <- Ring2
   Leader = b
   Std <- Std2
-  StdFrom <- StdFromBad2
+  StdFrom <- NoStdFrom2
   CycEdges <- Cyc2
-  FailMode = "none"
-  Fuel = 2
-INVARIANTS Accounting TeardownOnlyWhenQuiet LatchOnlyWhenQuiet NoWorkLost OrderedTeardown
+  FailMode = "nodec"
+  Fuel = 3
+INVARIANTS TeardownOnlyWhenQuiet
 PROPERTIES Termination
 CHECK_DEADLOCK FALSE
